@@ -124,6 +124,9 @@ def excel_rows(source_path, sheet=1):
     assert sheet >= 1, "sheet=%r" % sheet
 
     location = errors.Location(source_path, has_cell=True)
+    # Fail with an OSError only if the file cannot be opened; any later OSError is caused by damaged contents.
+    with open(source_path, "rb"):
+        pass
     try:
         with xlrd.open_workbook(source_path) as book:
             if sheet > book.nsheets:
@@ -143,10 +146,11 @@ def excel_rows(source_path, sheet=1):
         raise errors.DataFormatError("cannot read Excel file: %s" % error, location)
     except UnicodeError as error:
         raise errors.DataFormatError("cannot decode Excel data: %s" % error, location)
-    except (errors.DataFormatError, OSError):
+    except errors.DataFormatError:
         raise
     except Exception as error:
-        # For example zipfile.BadZipFile, zlib.error or EOFError on damaged *.xlsx files.
+        # For example zipfile.BadZipFile, zlib.error, EOFError or OSError (seek to an
+        # impossible position) on damaged *.xlsx files.
         raise errors.DataFormatError("cannot read damaged Excel file: %s" % error, location)
 
 
